@@ -7,7 +7,7 @@ import gen_C10
 from props import C10_pfcases as PF
 
 ID = 'C10'
-GEN = [('Gen/C10_Units.v', gen_C10.generate), ('Gen/C10_Code.v', gen_C10.generate_code)]
+GEN = [('Gen/C10_Units.v', gen_C10.generate), ('Gen/C10_Code.v', gen_C10.generate_code), ('Gen/C10_QemuCode.v', gen_C10.generate_qemu)]
 EQUIV_FILES = ['Proofs/C10_Equiv.v']
 EXTRACT = 'Extract/C10_x.v'
 
@@ -205,6 +205,32 @@ QEMU_BOUNDARY = ['', ' ', 'None', 'unavailable', 'abc', '0', '1', '12345', '1.5'
                  'x 10 (7 bytes)', '10 x (7 bytes)', '10 (7 bytes) (8 bytes)', '1_0', '1_', '_1', '1 _', '1٣', '٣', '٣K', '1 ٣', '1 K٣', '1.', '1.K', '1..5K', '1 (٣ bytes)', '12 Kb', '12 kB', '12 k', '12 i', '12 QiB',
                  '12 Q', '8 b', '8 bit', '7 bit', '12 Ki', '12 KiBB', '12\nK', '12 K', '12 KiB', '12 K\n', '1 (' + '9' * 4301 + ' bytes)', '9' * 4301, '0' * 4301]
 
+SIZE_ATTR = {'virtual size': 'virtual_size', 'disk size': 'disk_size', 'cluster_size': 'cluster_size', 'Virtual-Size': 'virtual_size',
+             'DISK SIZE': 'disk_size', ' cluster size ': 'cluster_size', 'virtual_size': 'virtual_size', 'Disk-size': 'disk_size',
+             'cluster-Size': 'cluster_size', 'virtual\tsize': None, 'virtual  size': None, 'virtualsize': None, 'size': None, 'image': None,
+             'file format': None, 'backing file': None, 'Virtual_Size ': 'virtual_size', 'disk size ': 'disk_size', 'DİSK SIZE': None}
+MALFORMED_SIZES = ['n/a', 'unknown', '-', '?', 'none', 'NONE', 'Unavailable', 'unavailable.', 'None None', '(5 bytes)', 'bytes', 'GiB', '', ' ', 'x', '--', '1.', '1.5',
+                   '1e5', '1 e+5', '12 i', '12 X', '12 KK', '1.5.2K', '1,5G', '1 Gigabyte', '5 QQ', 'inf', 'nan', '9' * 330 + 'G', '1e+400G', '0x10', '1_0 K',
+                   'None', 'unavailable', ' None ', '0', '0 B', '0.0K', '0 (0 bytes)', '12 (bytes)', 'K', '1 K (x bytes)', '٣', '٣K', '1.5 ٣']
+def rand_qf(rng):
+    """one line of `qemu-img info` (human format) naming a field, mostly a byte-size field"""
+    name = rng.choice(list(SIZE_ATTR))
+    r = rng.random()
+    if r < 0.45:
+        c = rand_qemu(rng); d = c['d']
+    elif r < 0.85:
+        c = {}; d = rng.choice(MALFORMED_SIZES)
+    else:
+        c = {}; d = rng.choice(['None', 'unavailable', ' None', 'unavailable  ', 'None\t'])
+    sep = rng.choice([':', ': ', ':  ', ' :', ':\t'])
+    line = name + sep + d
+    out = {'op': 'qf', 'line': line, 'field': SIZE_ATTR[name] if not sep.startswith(' ') or SIZE_ATTR[name] is None else SIZE_ATTR[name], 'd': d}
+    for k in ('mag', 'unit', 'figure'):
+        if k in c: out[k] = c[k]
+    return out
+
+_BREAKS = '\n\r\x0b\x0c\x1c\x1d\x1e\x85\u2028\u2029'
+
 def gen_cases(rng, tier):
     quick = tier == 'quick'
     yield from s2b_boundary()
@@ -221,6 +247,12 @@ def gen_cases(rng, tier):
         yield {'op': 'rxs', 'd': rand_qemu(rng)['d']}
     for d in QEMU_BOUNDARY:
         yield {'op': 'rxs', 'd': d}
+    # QemuImgInfo end to end: one line naming a (size) field, with well-formed, zero-word and malformed details
+    for name in SIZE_ATTR:
+        for d in MALFORMED_SIZES:
+            yield {'op': 'qf', 'line': name + ': ' + d, 'field': SIZE_ATTR[name], 'd': d}
+    for _ in range(1500 if quick else 40000):
+        yield rand_qf(rng)
     # the float model (Base/PyFloat.v) against CPython
     yield from PF.gen_pf_cases(rng, 'quick' if quick else 'thorough', scale=0.4 if quick else 0.5)
 
@@ -252,6 +284,12 @@ def impl(c):
             q = _q()()
             r = q._extract_bytes(c['d'])
             return str(r) if isinstance(r, int) and not isinstance(r, bool) else 'OTHER:' + type(r).__name__
+        if op == 'qf':
+            warnings.simplefilter('ignore')
+            info = _q()(c['line'])
+            got = [(a, getattr(info, a)) for a in ('virtual_size', 'disk_size', 'cluster_size') if getattr(info, a) is not None]
+            if not got: return 'OTHER'
+            return ';'.join('%s %s' % (a, v if isinstance(v, int) and not isinstance(v, bool) else 'OTHER:' + type(v).__name__) for a, v in got)
         if op == 'rx':
             m = _su().UNIT_SYSTEM_INFO[c['u']][1].match(c['text'])
             return 'None' if m is None else '%d %s %s %s' % (m.end(), _span(m, 1), _span(m, 2), _span(m, 3))
@@ -269,7 +307,13 @@ def encode(c):
     if op == 'xb': return ['xb', c['d']]
     if op == 'rx': return ['rx', c['text'], c['u']]
     if op == 'rxs': return ['rxs', c['d']]
+    if op == 'qf': return None if any(ch in c['line'] for ch in _BREAKS) else ['qf', c['line']]
     return None
+
+def decode(c, out):
+    # the model names the field it found also when the value is an exception; the constructor just raises
+    if c['op'] == 'qf' and ' EXN:' in out: return out[out.index(' EXN:') + 1:]
+    return out
 
 # ------------------------------------------------------------------ oracle: the property, read without the model
 def _check_value(what, out, exact, tol, exact_rule, ri, neg=False):
@@ -320,6 +364,28 @@ def oracle(c, out):
                 if v == v and abs(v) != float('inf') and out != 'i:%d' % math.ceil(v):
                     return '%s = %s but the float result is %r (ceiling %d)' % (what, out, v, math.ceil(v))
         return None
+    if op == 'qf':
+        what = 'QemuImgInfo(%r)' % (c['line'] if len(c['line']) < 70 else c['line'][:67] + '...')
+        f, d = c.get('field'), c['d'].strip()
+        if out.startswith('EXN:') and out != 'EXN:ValueError': return '%s raises %s' % (what, out[4:])
+        if f is None or any(ch in c['line'] for ch in _BREAKS): return None
+        if out == 'OTHER': return '%s: the %s field was dropped' % (what, f)
+        if out.startswith('EXN:'):
+            val = out
+        else:
+            if not out.startswith(f + ' ') or ';' in out: return '%s stored %s, expected field %s' % (what, out, f)
+            val = out[len(f) + 1:]
+        if d in ('None', 'unavailable'):
+            return None if val == '0' else '%s: %r must be stored as 0, got %s' % (what, d, val)
+        import unicodedata
+        if not any(unicodedata.category(ch) == 'Nd' for ch in d):
+            # no digit at all: there is no size to read — ValueError, never a silent number
+            return None if val == 'EXN:ValueError' else '%s: unreadable size %r stored as %s' % (what, d, val)
+        sub = {'op': 'xb', 'd': d}
+        for k in ('mag', 'unit', 'figure'):
+            if k in c and c['d'] == d: sub[k] = c[k]
+        msg = oracle(sub, val)
+        return msg and msg.replace('_extract_bytes', 'QemuImgInfo size field -> _extract_bytes')
     if op == 'xb':
         d = c['d']
         what = '_extract_bytes(%r)' % (d if len(d) < 60 else d[:57] + '...')
@@ -376,6 +442,8 @@ def classify(c, out):
         return 's2b:%s:%s' % (c['u'] if c['u'] in SYSTEMS else 'unknown-system', k)
     if op == 'xb':
         return 'xb:' + ('exn' if out.startswith('EXN') else ('figure' if 'figure' in c else 'value'))
+    if op == 'qf':
+        return 'qf:' + ('exn' if out.startswith('EXN') else ('other' if out == 'OTHER' else 'stored'))
     return op.split('_')[0] if op.startswith('pf_') else op
 
 def search(rng, budget):
@@ -389,9 +457,13 @@ def search(rng, budget):
     yield from s2b_boundary()
     for d in QEMU_BOUNDARY:
         yield {'op': 'xb', 'd': d}
+    for name in SIZE_ATTR:
+        for d in MALFORMED_SIZES:
+            yield {'op': 'qf', 'line': name + ': ' + d, 'field': SIZE_ATTR[name], 'd': d}
     for _ in range(budget):
         yield rand_s2b(rng)
         yield rand_qemu(rng)
+        yield rand_qf(rng)
 
 TRUSTED = ['CPython float()/int()/float arithmetic/math.ceil/format(.0f)/re modelled in Base/PyFloat.v, Base/PyInt.v, Base/Regex.v; the float model is '
            're-validated bit-exactly against the running interpreter on every run (ops pf_*), the regex engine on the generated patterns (ops rx, rxs)',
@@ -402,7 +474,8 @@ ASSUMPTIONS = ['text and unit_system are str (non-str arguments are outside the 
 RULE = ('boundary grid first: 3 signs x 5 magnitudes x (22 prefixes + none) x {b,bit,B} x {IEC,SI,mixed} x return_int; 46 foreign prefixes; 56 magnitude shapes '
         '(integers, decimals, leading/trailing dot, Unicode digits, 17+ digits, >308 digits, subnormal range, malformed); malformed units; 14 unknown unit systems; '
         'trailing-newline and whitespace variants; then random structured cases (72% well-formed for some system, 15% one malformed component, 13% junk); '
-        'qemu-img style fields (magnitude, optional unit, optional "(N bytes)" figure, e-notation, decorations); regex-engine cases; float-model cases; '
+        'qemu-img style fields (magnitude, optional unit, optional "(N bytes)" figure, e-notation, decorations); QemuImgInfo(line) for 19 field-name '
+        'spellings x 46 size texts (well-formed, None/unavailable, malformed) + random; regex-engine cases; float-model cases; '
         'distinct = distinct case JSON; trivial = none')
 LEVEL_TEXT = ('Unbounded theorems (all texts, all unit-system strings): the unit systems are exactly IEC/SI/mixed; a regex of a system matches a text '
               'iff it is [sign]number[prefix of the system]unit and nothing else (the patterns end in \\Z, translated as an end-of-subject flag); every prefix a regex can capture is in the exponent table with the SI/IEC '
@@ -413,8 +486,11 @@ LEVEL_TEXT = ('Unbounded theorems (all texts, all unit-system strings): the unit
               'integer (proved on SpecFloat, no axioms); _extract_bytes returns the "(N bytes)" figure whenever SIZE_RE finds one, otherwise uses '
               'string_to_bytes(IEC, return_int). Tables and the four regexes are regenerated from the source on every run and enter the theorems '
               'through computed checkers; the body of string_to_bytes is translated statement by statement and proved equal to the model. '
+              'QemuImgInfo: _canonicalize, _extract_bytes and the size branch of _extract_details are translated statement by statement and proved '
+              'equal to the model; the size fields are exactly virtual/cluster/disk size, 0 only for None/unavailable, every ValueError of '
+              '_extract_bytes propagates (never a silent 0), _extract_bytes raises nothing else; units.py constants agree with base^exponent. '
               'Partial: non-representable products are only "the IEEE evaluation" (the oracle bounds the distance to the exact rational); '
-              '_extract_bytes is tied by correspondence, not by translation.')
+              '_parse is modelled for one line and tied by correspondence (op qf).')
 LEVEL_NOTE = ('Trusted: Coq kernel/vm_compute; translators (CPython re._parser via regex_tr, ast via gen_C10); models of CPython float()/int()/re/float '
               'arithmetic/math.ceil/format(.0f) in Base/ (PyFloat.v on the stdlib SpecFloat operations), each re-validated bit-exactly against the '
               'running interpreter on every run; int() digit limit 4300 as a constant. All Print Assumptions: Closed under the global context.')
